@@ -61,7 +61,7 @@ def gen_program(rng: Any) -> dict[str, Any]:
         tasks.append({"kind": "dispatcher", "steps": steps})
     for _ in range(rng.randint(1, 4)):
         sigs = rng.sample(chans, rng.randint(1, min(3, len(chans))))
-        style_kind = rng.choice(["eager", "eager", "count", "slow", "raise", "cancel"])
+        style_kind = rng.choice(["eager", "eager", "count", "slow", "raise", "cancel", "abandon"])
         style = {"kind": style_kind, "n": rng.randint(0, 6), "delay": rng.choice([0.5, 1, 3]), "yields": rng.randint(0, 2)}
         tasks.append({"kind": "subscriber", "start": gen_steps(rng, rng.randint(0, 3)), "signals": sigs,
                       "filter": rng.choice([None, "all", {"mod": 2, "rem": 0}, {"mod": 3, "rem": 1}]),
@@ -93,6 +93,7 @@ class Run:
         self.next_eid = 0
         self.insts: list[Any] = []
         self.gens: list[int] = []
+        self.abandoned: list[Any] = []
         self.crash: BaseException | None = None
 
     async def steps(self, steps: list[Any], actor: Any) -> None:
@@ -155,6 +156,20 @@ class Run:
         style = spec["style"]
         my_chans = [(i, self.gens[i], a) for i, a in spec["signals"]]
         self.trace.log("sub-enter-call", sid)
+        if style["kind"] == "abandon":
+            # a subscriber that is simply "gone": the stream is entered by hand, a few events are pulled and then the
+            # task ends without ever leaving the stream (references are dropped; finalisation is up to the event loop)
+            cm = sigs[0].stream_events(f, max_queue_size=spec["q"]) if spec["via"] == "method" else stream_events(sigs, f, max_queue_size=spec["q"])
+            stream = await cm.__aenter__()
+            self.trace.log("sub-entered", sid, chans=my_chans)
+            n = 0
+            while n < style["n"]:
+                ev = await stream.__anext__()
+                self.trace.log("yield", sid, eid=ev.n)
+                n += 1
+            self.abandoned.append((cm, stream))  # kept alive until the end of the history: still subscribed, never read again
+            self.trace.log("sub-abandoned", sid)
+            return
         try:
             cm = sigs[0].stream_events(f, max_queue_size=spec["q"]) if spec["via"] == "method" else stream_events(sigs, f, max_queue_size=spec["q"])
             async with cm as stream:
@@ -254,6 +269,11 @@ class Run:
                         break
                 self.trace.log("final-cancel", "driver")
                 consumers.cancel_scope.cancel()
+            for cm, _stream in self.abandoned:
+                try:
+                    await cm.__aexit__(None, None, None)
+                except BaseException:
+                    pass
         except BaseException as e:
             self.crash = e
             self.trace.log("crash", "driver", exc=describe_exc(e))
@@ -416,6 +436,8 @@ def check(run: Run) -> tuple[list[dict[str, Any]], dict[str, int]]:
             bad("events-wait-wrong", f"wait_event caller {wid} returned event {ret['eid']} although no matching event was dispatched after its call began", waiter=spec)
     if active_subs >= 2:
         inc("histories_with_2plus_subscribers")
+    if any(t["kind"] == "subscriber" and t["style"]["kind"] == "abandon" for t in prog["tasks"]):
+        inc("histories_with_abandoned_subscriber")
     if any(t["kind"] == "subscriber" and t["style"]["kind"] in ("count", "raise", "cancel") for t in prog["tasks"]):
         inc("histories_with_leaving_subscriber")
     inc(f"backend_{prog['backend']}")
